@@ -552,3 +552,258 @@ Proof.
   exists [Call oversized_request; Call (small_request [LBR; RBR])]. split; [|reflexivity].
   repeat constructor; cbn; intros k p sz H; injection H as <- _; reflexivity.
 Qed.
+
+(* ---- polling a growing std.out (LocalBackend drops an unterminated last line) ------- *)
+
+(* the longest prefix of [t] that ends with a newline *)
+Fixpoint complete (t : text) : text :=
+  match t with
+  | [] => []
+  | c :: r => if Z.eqb c NL then NL :: complete r
+              else match complete r with [] => [] | x => c :: x end
+  end.
+
+Lemma drop_unterminated_cons2 l l2 ls :
+  drop_unterminated (l :: l2 :: ls) = l :: drop_unterminated (l2 :: ls).
+Proof. reflexivity. Qed.
+
+Lemma readlines_lines_nonempty t : Forall (fun l => l <> []) (readlines t).
+Proof.
+  induction t as [|c r IH]; [constructor|].
+  cbn [readlines]. destruct (Z.eqb c NL).
+  - constructor; [discriminate | exact IH].
+  - destruct (readlines r) as [|l ls]; [repeat constructor; discriminate|].
+    inversion IH; subst. constructor; [discriminate | assumption].
+Qed.
+
+Lemma ends_nl_cons c l : l <> [] -> ends_nl (c :: l) = ends_nl l.
+Proof. unfold ends_nl. destruct l; [congruence | reflexivity]. Qed.
+
+Lemma readlines_cons_nonl c r : Z.eqb c NL = false ->
+  readlines (c :: r) = match readlines r with [] => [[c]] | l :: ls => (c :: l) :: ls end.
+Proof. intro E. cbn [readlines]. rewrite E. reflexivity. Qed.
+
+Lemma complete_cons_nonl c r : Z.eqb c NL = false ->
+  complete (c :: r) = match complete r with [] => [] | x => c :: x end.
+Proof. intro E. cbn [complete]. rewrite E. reflexivity. Qed.
+
+Lemma drop_readlines t : drop_unterminated (readlines t) = readlines (complete t).
+Proof.
+  induction t as [|c r IH]; [reflexivity|].
+  destruct (Z.eqb c NL) eqn:E.
+  - apply Z.eqb_eq in E. subst c.
+    change (readlines (NL :: r)) with ([NL] :: readlines r).
+    change (complete (NL :: r)) with (NL :: complete r).
+    change (readlines (NL :: complete r)) with ([NL] :: readlines (complete r)).
+    rewrite <- IH. destruct (readlines r) as [|l ls]; reflexivity.
+  - rewrite (readlines_cons_nonl c r E), (complete_cons_nonl c r E).
+    pose proof (readlines_lines_nonempty r) as Hne.
+    destruct (readlines r) as [|l ls] eqn:El.
+    + cbn [drop_unterminated] in *. unfold ends_nl. cbn [last].
+      rewrite E. destruct (complete r) as [|x xs] eqn:Ec; [reflexivity|].
+      cbn [readlines] in IH. destruct (Z.eqb x NL); [discriminate|].
+      destruct (readlines xs); discriminate.
+    + inversion Hne as [|? ? Hl Hls]; subst.
+      destruct ls as [|l2 ls'].
+      * cbn [drop_unterminated] in *. rewrite (ends_nl_cons c l Hl).
+        destruct (ends_nl l).
+        -- destruct (complete r) as [|x xs] eqn:Ec; [discriminate|].
+           rewrite (readlines_cons_nonl c (x :: xs) E), <- IH. reflexivity.
+        -- destruct (complete r) as [|x xs] eqn:Ec; [reflexivity|].
+           exfalso. cbn [readlines] in IH. destruct (Z.eqb x NL); [discriminate|].
+           destruct (readlines xs); discriminate.
+      * rewrite drop_unterminated_cons2 in *.
+        destruct (complete r) as [|x xs] eqn:Ec; [discriminate|].
+        rewrite (readlines_cons_nonl c (x :: xs) E), <- IH. reflexivity.
+Qed.
+
+Theorem poll_model_complete t : poll_model t = findall (complete t).
+Proof. unfold poll_model. rewrite drop_readlines. apply retrieve_readlines. Qed.
+
+Lemma complete_app_nl a b : complete (a ++ NL :: b) = a ++ NL :: complete b.
+Proof.
+  induction a as [|c a IH]; [reflexivity|].
+  rewrite <- !app_comm_cons. cbn [complete]. rewrite IH.
+  destruct (Z.eqb c NL) eqn:E.
+  - apply Z.eqb_eq in E. subst c. reflexivity.
+  - destruct a; reflexivity.
+Qed.
+
+Lemma complete_nonl w : mem_ch NL w = false -> complete w = [].
+Proof.
+  induction w as [|c w IH]; intro H; [reflexivity|].
+  cbn [mem_ch] in H. apply orb_false_iff in H. destruct H as [H1 H2].
+  cbn [complete]. rewrite Z.eqb_sym, H1, (IH H2). reflexivity.
+Qed.
+
+Lemma complete_app_nonl a w : mem_ch NL w = false -> complete (a ++ w) = complete a.
+Proof.
+  intro H. induction a as [|c a IH]; [exact (complete_nonl w H)|].
+  rewrite <- app_comm_cons. cbn [complete]. rewrite IH. reflexivity.
+Qed.
+
+Lemma complete_prefix t : exists rest, t = complete t ++ rest.
+Proof.
+  induction t as [|c r [rest IH]]; [exists []; reflexivity|].
+  cbn [complete]. destruct (Z.eqb c NL) eqn:E.
+  - apply Z.eqb_eq in E. subst c. exists rest. rewrite <- app_comm_cons. f_equal. exact IH.
+  - destruct (complete r) as [|x xs].
+    + exists (c :: r). reflexivity.
+    + exists rest. rewrite <- app_comm_cons. f_equal. exact IH.
+Qed.
+
+Lemma strip_prefix_app_r p : forall x b r,
+  strip_prefix p x = Some r -> strip_prefix p (x ++ b) = Some (r ++ b).
+Proof.
+  induction p as [|a p IH]; intros x b r H.
+  - cbn in *. injection H as ->. reflexivity.
+  - destruct x as [|c x]; [discriminate|].
+    rewrite <- app_comm_cons, strip_prefix_cons in *. destruct (Z.eqb a c); [|discriminate].
+    apply IH. exact H.
+Qed.
+
+Lemma has_tag_app_l a b : has_tag (a ++ b) = false -> has_tag a = false.
+Proof.
+  induction a as [|c a IH]; intro H; [reflexivity|].
+  rewrite <- app_comm_cons, has_tag_cons in H. apply orb_false_iff in H. destruct H as [H1 H2].
+  rewrite has_tag_cons, (IH H2), orb_false_r.
+  unfold starts_with in *. destruct (strip_prefix TAG (c :: a)) as [r|] eqn:E; [|reflexivity].
+  rewrite app_comm_cons, (strip_prefix_app_r _ _ b _ E) in H1. discriminate.
+Qed.
+
+Lemma findall_complete_notag acc : has_tag acc = false -> findall (complete acc) = [].
+Proof.
+  intro H. destruct (complete_prefix acc) as [rest Hr]. rewrite Hr in H.
+  apply has_tag_app_l in H. unfold findall.
+  rewrite <- (app_nil_r (complete acc)). rewrite (scan_notag [] (or_introl eq_refl) _ H). reflexivity.
+Qed.
+
+Lemma noise_ok_from_acc cs : forall acc, noise_ok_from acc cs = true -> has_tag acc = false.
+Proof.
+  induction cs as [|[s|p] cs IH]; intros acc H; cbn [noise_ok_from] in H.
+  - apply negb_true_iff in H. exact H.
+  - apply IH in H. exact (has_tag_app_l _ _ H).
+  - apply andb_true_iff in H. destruct H as [H _]. apply negb_true_iff in H. exact H.
+Qed.
+
+Lemma mem_ch_firstn c n : forall x, mem_ch c x = false -> mem_ch c (firstn n x) = false.
+Proof.
+  induction n as [|n IH]; intros x H; [reflexivity|].
+  destruct x as [|d x]; [reflexivity|]. cbn [firstn mem_ch] in *.
+  apply orb_false_iff in H. destruct H as [H1 H2]. rewrite H1, (IH x H2). reflexivity.
+Qed.
+
+Lemma polling_from : forall cs acc n,
+  noise_ok_from acc cs = true -> payloads_ok cs = true ->
+  findall (complete (acc ++ firstn n (render cs))) = delivered_upto cs n.
+Proof.
+  induction cs as [|[s|p] cs IH]; intros acc n Hn Hp.
+  - cbn [render delivered_upto]. rewrite firstn_nil, app_nil_r.
+    apply findall_complete_notag. apply negb_true_iff. exact Hn.
+  - cbn [render delivered_upto noise_ok_from payloads_ok] in *. rewrite firstn_app.
+    destruct (Nat.leb (length s) n) eqn:L.
+    + apply Nat.leb_le in L. rewrite (firstn_all2 s L), app_assoc. apply IH; assumption.
+    + apply Nat.leb_gt in L. replace (n - length s)%nat with 0%nat by lia.
+      cbn [firstn]. rewrite app_nil_r.
+      pose proof (noise_ok_from_acc _ _ Hn) as Ht.
+      rewrite <- (firstn_skipn n s), app_assoc in Ht. apply has_tag_app_l in Ht.
+      rewrite (findall_complete_notag _ Ht).
+      clear. induction cs as [|[s'|p'] cs IHc]; [reflexivity| |]; cbn [delivered_upto].
+      * exact IHc.
+      * rewrite PRE_length. reflexivity.
+  - cbn [render delivered_upto noise_ok_from payloads_ok] in *.
+    apply andb_true_iff in Hn. destruct Hn as [Ha Hn]. apply negb_true_iff in Ha.
+    apply andb_true_iff in Hp. destruct Hp as [Hs Hp].
+    destruct (payload_shape p Hs) as [q [Hq Hnl]].
+    destruct (Nat.leb (length PRE + length p + 1) n) eqn:L.
+    + apply Nat.leb_le in L.
+      replace (PRE ++ p ++ NL :: render cs) with ((PRE ++ p ++ [NL]) ++ render cs)
+        by (rewrite <- !app_assoc; reflexivity).
+      rewrite firstn_app, firstn_all2 by (rewrite !app_length; cbn [length]; lia).
+      replace (n - length (PRE ++ p ++ [NL]))%nat with (n - (length PRE + length p + 1))%nat
+        by (rewrite !app_length; cbn [length]; lia).
+      replace (acc ++ (PRE ++ p ++ [NL]) ++ firstn (n - (length PRE + length p + 1)) (render cs))
+        with ((acc ++ PRE ++ p) ++ NL :: firstn (n - (length PRE + length p + 1)) (render cs))
+        by (rewrite <- !app_assoc; reflexivity).
+      rewrite complete_app_nl. unfold findall. rewrite <- app_assoc.
+      rewrite scan_notag; [|right; rewrite PRE_eq; eexists; reflexivity | exact Ha].
+      rewrite <- app_assoc, (scan_report p _ Hs). f_equal.
+      exact (IH [] _ Hn Hp).
+    + apply Nat.leb_gt in L.
+      replace (PRE ++ p ++ NL :: render cs) with ((PRE ++ p) ++ NL :: render cs)
+        by (rewrite <- app_assoc; reflexivity).
+      rewrite firstn_app. replace (n - length (PRE ++ p))%nat with 0%nat by (rewrite app_length; lia).
+      cbn [firstn]. rewrite app_nil_r, complete_app_nonl.
+      * apply findall_complete_notag. exact Ha.
+      * apply mem_ch_firstn. rewrite mem_ch_app, PRE_no_nl, Hnl. reflexivity.
+Qed.
+
+(* one poll: whatever prefix of the stream is in std.out, LocalBackend parses
+   exactly the reports whose line is completely there *)
+Theorem polling_prefixes cs n :
+  noise_ok cs = true -> payloads_ok cs = true ->
+  poll_model (firstn n (render cs)) = delivered_upto cs n.
+Proof. intros Hn Hp. rewrite poll_model_complete. exact (polling_from cs [] n Hn Hp). Qed.
+
+Lemma delivered_upto_prefix : forall cs n, exists k, delivered_upto cs n = firstn k (payloads_of cs).
+Proof.
+  induction cs as [|[s|p] cs IH]; intro n; cbn [delivered_upto payloads_of].
+  - exists 0%nat. reflexivity.
+  - apply IH.
+  - destruct (Nat.leb (length PRE + length p + 1) n).
+    + destruct (IH (n - (length PRE + length p + 1))%nat) as [k Hk]. exists (S k). cbn [firstn]. f_equal. exact Hk.
+    + exists 0%nat. reflexivity.
+Qed.
+
+Lemma delivered_upto_mono : forall cs n m, (n <= m)%nat ->
+  exists j, delivered_upto cs n = firstn j (delivered_upto cs m).
+Proof.
+  induction cs as [|[s|p] cs IH]; intros n m Hnm; cbn [delivered_upto].
+  - exists 0%nat. reflexivity.
+  - apply IH. lia.
+  - destruct (Nat.leb (length PRE + length p + 1) n) eqn:L.
+    + apply Nat.leb_le in L. assert (L' : Nat.leb (length PRE + length p + 1) m = true) by (apply Nat.leb_le; lia).
+      rewrite L'. destruct (IH (n - (length PRE + length p + 1))%nat (m - (length PRE + length p + 1))%nat) as [j Hj]; [lia|].
+      exists (S j). cbn [firstn]. f_equal. exact Hj.
+    + exists 0%nat. reflexivity.
+Qed.
+
+Lemma delivered_upto_all : forall cs n, (length (render cs) <= n)%nat -> delivered_upto cs n = payloads_of cs.
+Proof.
+  induction cs as [|[s|p] cs IH]; intros n H; cbn [delivered_upto payloads_of render] in *.
+  - reflexivity.
+  - rewrite app_length in H. apply IH. lia.
+  - rewrite !app_length in H. cbn [length] in H.
+    assert (L : Nat.leb (length PRE + length p + 1) n = true) by (apply Nat.leb_le; lia).
+    rewrite L. f_equal. apply IH. lia.
+Qed.
+
+(* over any increasing sequence of polls the parsed lists are increasing
+   prefixes of the payloads, and the poll that sees the whole text has them all *)
+Theorem polling_monotone cs n m :
+  noise_ok cs = true -> payloads_ok cs = true -> (n <= m)%nat ->
+  (exists k, poll_model (firstn n (render cs)) = firstn k (payloads_of cs)) /\
+  (exists j, poll_model (firstn n (render cs)) = firstn j (poll_model (firstn m (render cs)))) /\
+  ((length (render cs) <= m)%nat -> poll_model (firstn m (render cs)) = payloads_of cs).
+Proof.
+  intros Hn Hp Hnm. rewrite !polling_prefixes by assumption. repeat split.
+  - apply delivered_upto_prefix.
+  - apply delivered_upto_mono. exact Hnm.
+  - apply delivered_upto_all.
+Qed.
+
+(* the old F-C18-3 in model form: bare retrieve on a prefix cut behind a "}"
+   inside a payload yields a fragment that is not a payload *)
+Definition cut_witness : list chunk :=
+  [Report [123; 34; 97; 34; 58; 32; 123; 34; 120; 34; 58; 32; 49; 125; 44; 32; 34; 98; 34; 58; 32; 50; 125]].
+  (* {"a": {"x": 1}, "b": 2} *)
+
+Lemma retrieve_on_cut_line_refuted :
+  exists cs n g, noise_ok cs = true /\ payloads_ok cs = true /\
+    findall (firstn n (render cs)) = [g] /\ ~ In g (payloads_of cs) /\
+    poll_model (firstn n (render cs)) = [].
+Proof.
+  exists cut_witness, 29%nat, [123; 34; 97; 34; 58; 32; 123; 34; 120; 34; 58; 32; 49; 125].
+  repeat split; try reflexivity.
+  intros [H | []]. discriminate H.
+Qed.
